@@ -4,6 +4,7 @@ CONSTANTS
   Vals = {"9", "1000"}
   Bases = {"N1"}
   XVals = {"", "s1"}
+  XYVals = {""}
   GVals = {""}
   MenuIds = {"e1", "e5", "e6", "e7", "e9"}
   MaxExprs = 2
